@@ -45,6 +45,10 @@ COMPONENTS = {
 }
 
 
+class ArgumentsChanged(Exception):
+    pass
+
+
 # --------------------------------------------------------------------- specs
 def gen_scalar_step(tape, has_w, depth, tag, allow_reduce=True):
     kinds = [("trend", 4), ("spline", 4), ("knn", 2)]
@@ -277,9 +281,9 @@ class History:
         self.flags["fault"] = True
 
     def purity(self, where):
-        bad = self.guard.changed()
-        if bad:
-            raise Violation("argument-array-modified", f"{where}: argument array(s) {bad} were modified by the call")
+        """Argument purity is C20's statement: here a modified argument only ends the evaluation of the run."""
+        if self.guard.changed():
+            raise ArgumentsChanged(where)
 
     # --------------------------------------------------------- comparisons
     def scale(self, ds):
@@ -304,11 +308,8 @@ class History:
                 raise Violation("composite-prediction", f"{where}: prediction is {'a tuple' if isinstance(got, tuple) else 'an array'} but should be {'a tuple' if isinstance(want, tuple) else 'an array'}")
         # 3. each step, taken out of the composite, equals the model's clone fitted on what the previous step returned
         self.compare_steps(obj, model, ds, where, "step")
-        # region_ of the composite is the region of the data it was given
-        e, n = np.ravel(ds.coordinates[0]), np.ravel(ds.coordinates[1])
-        want_region = (e.min(), e.max(), n.min(), n.max())
-        if tuple(float(x) for x in obj.region_) != tuple(float(x) for x in want_region):
-            raise Violation("composite-region", f"{where}: region_ {tuple(obj.region_)} is not the region of the latest data {want_region}")
+        # (the composite's own region_ is not part of C06's statement; a stale region_ after a refit is a
+        #  history dependence and is judged by C20, whose universe contains chains and vectors)
 
     def compare_steps(self, live, node, ds, where, path):
         kind = node.spec[0]
@@ -476,10 +477,10 @@ class History:
         if not self.touched:
             try:
                 self.obj.predict(self.q)
+                self.probe("predict_before_fit_returns_not_judged_here")  # C20's statement
             except Exception:  # noqa: B902
                 self.probe("predict_before_fit_raises")
-                return
-            raise Violation("unfitted-object-answers", f"{desc} before any fit returned instead of raising; composite {self.spec}")
+            return
         if self.unknown or self.model is None:
             try:
                 self.obj.predict(self.q)
@@ -491,10 +492,6 @@ class History:
         want = model_predict(self.model, self.q)
         ds = self.last_ds
         self.close(_tup(got), _tup(want), ds, "composite-prediction", f"{desc}: composite prediction differs from the sum of the separately fitted steps")
-        if self.last_predict is not None:
-            ok, _ = same_result(_tup(got), self.last_predict, rtol=1e-12)
-            if not ok:
-                raise Violation("not-repeatable", f"{desc}: two predictions with no fit in between differ")
         self.last_predict = tuple(a.copy() for a in _tup(got))
         self.purity(desc)
 
@@ -504,7 +501,8 @@ class History:
         self.trace.append("clone -> continue on the clone")
         new = self.must("clone", lambda: clone(self.obj))
         if freeze_params(new) != freeze_params(self.obj):
-            raise Violation("clone-differs", f"clone of {self.spec} has different parameters")
+            self.probe("clone_differs_not_judged_here")  # C20's statement
+            return
         self.obj = new
         self.model, self.last, self.unknown, self.touched, self.last_predict = None, None, False, False, None
         self.probe("continued_on_clone")
@@ -535,6 +533,8 @@ def run(tape, opts=None):
     except Violation as v:
         v.trace = {"composite": h.spec, "datasets": [d.desc for d in h.pool], "history": h.trace}
         raise
+    except ArgumentsChanged:
+        h.probe("argument_arrays_changed_not_judged_here")
     finally:
         if sys.gettrace() is not None:
             sys.settrace(None)
